@@ -562,13 +562,13 @@ func classifyGb(c GbCase) (bool, []string) {
 func TestGb28181Unpacker(t *testing.T) {
 	pbt.Run(t, pbt.Spec[GbCase]{
 		ID: "C13", Name: "gb28181-ps-rtp", Gen: genGbCase(false), Run: runGbL1, Classify: classifyGb, Isolate: true,
-		Quick: 1500, Thorough: 20000,
+		Quick: 1500, Thorough: 6000,
 	})
 }
 
 func TestGb28181Tcp(t *testing.T) {
 	pbt.Run(t, pbt.Spec[GbCase]{
 		ID: "C13", Name: "gb28181-tcp-session", Gen: genGbCase(true), Run: runGbTcp, Classify: classifyGb, Isolate: true,
-		Quick: 120, Thorough: 1200,
+		Quick: 120, Thorough: 600,
 	})
 }
